@@ -77,7 +77,7 @@ func (d *atDriver) target(sc atScenario) string {
 
 func (d *atDriver) args(sc atScenario) []string {
 	switch sc.cmd {
-	case "save":
+	case "save", "resave":
 		return []string{"save", "--keywords", "zqa,zqb", "--", "rsync -av --delete src/ dst/", "Mirror a directory: with 'quotes' and # hash"}
 	case "save-pipeline":
 		return []string{"save-pipeline", "--", "errors", "grep ERROR app.log | sort | uniq -c"}
@@ -100,6 +100,9 @@ func (d *atDriver) writeOld(sc atScenario) []byte {
 		var cmds []database.Command
 		for i := 0; i < sc.oldSize; i++ {
 			cmds = append(cmds, database.Command{Command: fmt.Sprintf("old-command-%d --flag", i), Description: fmt.Sprintf("Old entry number %d", i), Keywords: []string{"old", "entry"}})
+			if sc.cmd == "resave" && i == sc.oldSize/2 { // the command about to be saved is already there: the save replaces this entry
+				cmds = append(cmds, database.Command{Command: "rsync -av --delete src/ dst/", Description: "an earlier description", Keywords: []string{"earlier"}})
+			}
 		}
 		writeYAML(t, cmds)
 	} else {
@@ -165,8 +168,12 @@ func (d *atDriver) classify(sc atScenario, old, neu []byte) (after string, loads
 }
 
 func (d *atDriver) run(prefix []string, sc atScenario) (string, int) {
+	return d.runArgs(prefix, d.args(sc))
+}
+
+func (d *atDriver) runArgs(prefix []string, args []string) (string, int) {
 	argv := append(append([]string{}, prefix...), d.wtf)
-	argv = append(argv, d.args(sc)...)
+	argv = append(argv, args...)
 	cmd := exec.Command(argv[0], argv[1:]...)
 	cmd.Dir = filepath.Join(d.home, "cwd")
 	cmd.Env = d.env()
@@ -205,7 +212,11 @@ func sysEvents(log string, target string) (evs []string, writes []int) {
 			} else if p == target {
 				evs = append(evs, "open_trunc") // any writing open of the live file counts as in-place
 			} else if filepath.Dir(p) == dir {
-				evs = append(evs, "open_tmp")
+				if strings.Contains(flags, "O_EXCL") || strings.Contains(flags, "O_TRUNC") {
+					evs = append(evs, "open_tmp")
+				} else {
+					evs = append(evs, "open_tmp_keep") // neither insists on a new file nor empties an existing one
+				}
 			}
 			continue
 		}
@@ -242,6 +253,8 @@ func sysEvents(log string, target string) (evs []string, writes []int) {
 		if m := reRename.FindStringSubmatch(line); m != nil {
 			if m[2] == target {
 				evs = append(evs, "rename")
+			} else if m[1] == target {
+				evs = append(evs, "rename_away") // the live file is moved out of its place
 			}
 		}
 	}
@@ -329,7 +342,7 @@ func atomicRun(args []string) int {
 	if err != nil {
 		fatal("strace not found")
 	}
-	scenarios := []atScenario{{"notebook", "save", -1}, {"notebook", "save", 0}, {"notebook", "save", 1}, {"notebook", "save", 25}, {"notebook", "save-pipeline", 3},
+	scenarios := []atScenario{{"notebook", "save", -1}, {"notebook", "save", 0}, {"notebook", "save", 1}, {"notebook", "save", 25}, {"notebook", "save-pipeline", 3}, {"notebook", "resave", 1}, {"notebook", "resave", 6},
 		{"history", "search", -1}, {"history", "search", 1}, {"history", "search", 40}}
 	for _, sc := range scenarios {
 		d.tr++
@@ -379,6 +392,39 @@ func atomicRun(args []string) int {
 			call := strings.SplitN(inj, ":", 2)[0]
 			for _, i := range ords[call] {
 				fault("inject:"+inj, strconv.Itoa(i), []string{d.strace, "-f", "-o", os.DevNull, "-e", "trace=" + call, "-e", fmt.Sprintf("inject=%s:when=%d", inj, i)})
+			}
+		}
+		// 4. two runs: the first is cut after k bytes and killed before it can clean up (whatever it created stays behind),
+		// the second - a shorter save - succeeds; the notebook must then be exactly what the second save produces from the
+		// state the first one left
+		if sc.file == "notebook" && sc.oldSize >= 1 {
+			short := []string{"save", "--", "x", "y"}
+			for _, k := range []int{len(neu) - 1, len(neu) - 40, len(old) + 60, len(old) + 20, len(old) / 2} {
+				if k < 1 || k >= len(neu) {
+					continue
+				}
+				d.writeOld(sc)
+				d.run([]string{d.self, "limit-exec", strconv.Itoa(k), d.strace, "-f", "-o", os.DevNull, "-e", "trace=unlink,unlinkat", "-e", "inject=unlink,unlinkat:signal=SIGKILL:when=1"}, sc)
+				left, _ := filepath.Glob(filepath.Join(filepath.Dir(d.target(sc)), "*"))
+				b1, err1 := os.ReadFile(d.target(sc))
+				o2, _ := d.runArgs(nil, short)
+				r2, _ := os.ReadFile(d.target(sc))
+				_, lerr := database.LoadDatabase(d.target(sc))
+				// the same second save from the same notebook content in a directory with nothing else in it
+				os.RemoveAll(filepath.Join(d.home, ".config"))
+				os.MkdirAll(filepath.Dir(d.target(sc)), 0o755)
+				if err1 == nil {
+					os.WriteFile(d.target(sc), b1, 0o644)
+				}
+				d.runArgs(nil, short)
+				e2, _ := os.ReadFile(d.target(sc))
+				after := "new"
+				if !bytes.Equal(r2, e2) {
+					after = "damaged"
+				}
+				d.tr++
+				d.w.emit(&atEv{Op: "fault", Tr: d.tr, File: sc.file, Cmd: sc.cmd, Kind: "leftover", At: strconv.Itoa(k), After: after, Loads: lerr == nil, HadOld: true,
+					Success: strings.Contains(o2, "saved successfully"), Note: fmt.Sprintf("%s; %d files beside the notebook after the killed run", label, len(left)-1)})
 			}
 		}
 	}
